@@ -199,11 +199,12 @@ theorem lex_wellEscQ (raw : Text) :
           · subst h34
             simp only [closesAtEnd, validEscapes] at hc hv
             simp at hc hv
-            exact ⟨Or.inr rfl, ih0 0 rfl hc.2 hv⟩
+            exact ⟨Or.inr rfl, ih0 0 rfl hc.2 hv.2⟩
           · simp only [closesAtEnd, validEscapes, h92, h10, h34, if_false] at hc hv
             simp at hv
             refine ⟨Or.inl ?_, ih0 0 rfl hc hv.2⟩
             have := hv.1
+            simp [lexEscapes] at this
             unfold IsEsc
             omega
 
@@ -342,35 +343,51 @@ theorem tsEscape_nil : tsEscape [] = [] := by rw [tsEscape]
 
 theorem tsEscape_nul_digit (d : Nat) (r : Text) (h : isDigit d = true) :
     tsEscape (92 :: 48 :: d :: r) = 92 :: 120 :: 48 :: 48 :: tsEscape (d :: r) := by
-  rw [tsEscape]; simp [h]
+  rw [tsEscape]; simp [h, tsNulBeforeDigit]
 
 theorem tsEscape_nul_other (d : Nat) (r : Text) (h : isDigit d = false) :
     tsEscape (92 :: 48 :: d :: r) = 92 :: 48 :: tsEscape (d :: r) := by
   rw [tsEscape]; simp [h]
 
 theorem tsEscape_nul_end : tsEscape [92, 48] = [92, 48] := by
-  rw [tsEscape]
-  · rw [tsEscape_nil]
-  all_goals (intros; simp_all)
+  rw [tsEscape]; simp [tsEscape_nil]
 
 theorem tsEscape_esc (e : Nat) (r : Text) (h : e ≠ 48) :
     tsEscape (92 :: e :: r) = 92 :: e :: tsEscape r := by
-  rw [tsEscape]
-  all_goals (intros; simp_all)
+  rw [tsEscape]; simp [h]
 
 theorem tsEscape_backtick (r : Text) : tsEscape (96 :: r) = 92 :: 96 :: tsEscape r := by
   rw [tsEscape]
+  · simp [tsRewriteOf, tsRewrites]
+  all_goals (intros; simp_all)
 
 theorem tsEscape_subst (r : Text) : tsEscape (36 :: 123 :: r) = 92 :: 36 :: tsEscape (123 :: r) := by
   rw [tsEscape]
+  · simp [tsRewriteOf, tsRewrites]
+  all_goals (intros; simp_all)
 
 theorem tsEscape_cr (r : Text) : tsEscape (13 :: r) = 92 :: 114 :: tsEscape r := by
   rw [tsEscape]
+  · simp [tsRewriteOf, tsRewrites]
+  all_goals (intros; simp_all)
 
 theorem tsEscape_plain (c : Nat) (r : Text) (h1 : c ≠ 92) (h2 : c ≠ 96) (h3 : c ≠ 13)
     (h4 : c = 36 → r.head? ≠ some 123) : tsEscape (c :: r) = c :: tsEscape r := by
+  have hnone : tsRewriteOf c r.head? = none := by
+    simp only [tsRewriteOf, tsRewrites, List.findSome?_cons, List.findSome?_nil]
+    have e1 : ¬ (96 = c) := fun e => h2 e.symm
+    have e3 : ¬ (13 = c) := fun e => h3 e.symm
+    by_cases h36 : c = 36
+    · subst h36
+      have := h4 rfl
+      have e4 : ¬ (some 123 = r.head?) := fun hh => this hh.symm
+      simp [e4]
+    · have e2 : ¬ (36 = c) := fun e => h36 e.symm
+      simp [e1, e2, e3]
   rw [tsEscape]
-  all_goals (intros; simp_all)
+  · rw [hnone]
+  · intro h; exact absurd h h1
+  · intro n r' h; exact absurd h h1
 
 /-- every rewritten prefix starts with a backslash, so any other first character is the original one -/
 theorem tsEscape_head (s : Text) (x : Nat) (hx : x ≠ 92) (h : (tsEscape s).head? = some x) :
@@ -432,7 +449,15 @@ theorem tsCook_r (rest : Text) : tsCook (92 :: 114 :: rest) = (tsCook rest).map 
 
 theorem escChar_isEsc (e : Nat) (h : IsEsc e) : ∃ c, escChar e = some c ∧ c < 128 := by
   unfold IsEsc at h
-  rcases h with rfl | rfl | rfl | rfl | rfl | rfl | rfl | rfl <;> simp [escChar]
+  rcases h with rfl | rfl | rfl | rfl | rfl | rfl | rfl | rfl
+  · exact ⟨9, by decide, by decide⟩
+  · exact ⟨11, by decide, by decide⟩
+  · exact ⟨0, by decide, by decide⟩
+  · exact ⟨8, by decide, by decide⟩
+  · exact ⟨12, by decide, by decide⟩
+  · exact ⟨10, by decide, by decide⟩
+  · exact ⟨13, by decide, by decide⟩
+  · exact ⟨92, by decide, by decide⟩
 
 theorem utf16_small (c : Nat) (h : c < 65536) : utf16 c = [c] := by unfold utf16; rw [if_pos h]
 
@@ -464,7 +489,9 @@ theorem cook_escape (n : Nat) : ∀ s : Text, s.length ≤ n → WellEsc s →
           simp only [List.length_cons] at hl
           by_cases he : e = 48
           · subst he
-            have hch0 : ch = 0 := by simp [escChar] at hch; exact hch.symm
+            have hch0 : ch = 0 := by
+              have : escChar 48 = some 0 := by decide
+              rw [this] at hch; exact (Option.some.inj hch).symm
             subst hch0
             cases r' with
             | nil =>
